@@ -29,30 +29,30 @@ Section Keyed.
   Lemma ssorted_cons : forall x l, ssorted l -> Forall (klt x) l -> ssorted (x :: l).
   Proof. intros; constructor; auto. Qed.
 
-  Lemma ins_perm : forall x l, Permutation (ins ltb x l) (x :: l).
+  Lemma ins_perm : forall (x : K * V) l, Permutation (ins ltb x l) (x :: l).
   Proof.
     intros x l; induction l as [|y t IH]; cbn; auto.
     destruct (ltb (fst y) (fst x)); auto.
     eapply perm_trans; [apply perm_skip, IH | apply perm_swap].
   Qed.
 
-  Lemma isort_perm : forall l, Permutation (isort ltb l) l.
+  Lemma isort_perm : forall (l : list (K * V)), Permutation (isort ltb l) l.
   Proof.
     induction l as [|x t IH]; cbn; auto.
     eapply perm_trans; [apply ins_perm | apply perm_skip, IH].
   Qed.
 
-  Lemma isort_in : forall l x, In x (isort ltb l) <-> In x l.
+  Lemma isort_in : forall (l : list (K * V)) x, In x (isort ltb l) <-> In x l.
   Proof.
     intros; split; intro H.
     - eapply Permutation_in; [apply isort_perm | exact H].
     - eapply Permutation_in; [apply Permutation_sym, isort_perm | exact H].
   Qed.
 
-  Lemma isort_length : forall l, length (isort ltb l) = length l.
+  Lemma isort_length : forall (l : list (K * V)), length (isort ltb l) = length l.
   Proof. intros; apply Permutation_length, isort_perm. Qed.
 
-  Lemma ins_ssorted : forall x l, ssorted l -> (forall y, In y l -> fst y <> fst x) -> ssorted (ins ltb x l).
+  Lemma ins_ssorted : forall (x : K * V) l, ssorted l -> (forall y, In y l -> fst y <> fst x) -> ssorted (ins ltb x l).
   Proof.
     intros x l; induction l as [|y t IH]; cbn; intros Hs Hne.
     - constructor; constructor.
